@@ -137,7 +137,7 @@ type Monitor struct {
 	// OnPacket is called for every decoded packet.
 	OnPacket func(p *Packet)
 	// Packets is the decoded history (types only, payloads dropped when large).
-	Packets []Packet
+	Packets      []Packet
 	KeepPayloads bool
 
 	sessionID []byte
@@ -159,9 +159,9 @@ type Monitor struct {
 }
 
 type negotiated struct {
-	kex, hostKey       string
-	cipher, mac        [2]string
-	have               bool
+	kex, hostKey string
+	cipher, mac  [2]string
+	have         bool
 }
 
 // New creates a monitor.
@@ -539,7 +539,8 @@ func (m *Monitor) deliver(dir int, payload []byte, pad int) {
 // ---- negotiation (RFC 4253 section 7.1) ----
 
 type kexInit struct {
-	lists [10][]string
+	lists   [10][]string
+	follows bool // first_kex_packet_follows
 }
 
 func parseKexInit(p []byte) (*kexInit, bool) {
@@ -561,6 +562,7 @@ func parseKexInit(p []byte) (*kexInit, bool) {
 		}
 		p = p[4+n:]
 	}
+	k.follows = len(p) > 0 && p[0] != 0
 	return &k, true
 }
 
@@ -749,8 +751,28 @@ func lenPrefixed(b []byte) []byte {
 // (RFC 4253 section 8, RFC 4419, RFC 5656, RFC 8731, draft-ietf-sshm-mlkem-hybrid-kex)
 // and the shared secret K the endpoint reported.
 func (m *Monitor) recomputeHash(r KexResult) []byte {
+	// RFC 4253 section 7: a side that set first_kex_packet_follows sent a
+	// guessed key exchange packet right after its KEXINIT; when the guess was
+	// wrong (the first kex or host key algorithms of the two lists differ)
+	// that packet is not part of the exchange
+	var wrongGuess [2]bool
+	ci, ok1 := parseKexInit(m.d[0].kexInit)
+	si, ok2 := parseKexInit(m.d[1].kexInit)
+	if ok1 && ok2 {
+		first := func(l []string) string {
+			if len(l) == 0 {
+				return ""
+			}
+			return l[0]
+		}
+		differ := first(ci.lists[0]) != first(si.lists[0]) || first(ci.lists[1]) != first(si.lists[1])
+		wrongGuess[0], wrongGuess[1] = ci.follows && differ, si.follows && differ
+	}
 	find := func(dir int, typ byte) []byte {
-		for _, p := range m.kexMsgs[dir] {
+		for i, p := range m.kexMsgs[dir] {
+			if i == 0 && wrongGuess[dir] {
+				continue
+			}
 			if p.Type == typ {
 				return p.Payload[1:]
 			}
